@@ -474,6 +474,9 @@ def compare(exp, rr):
     out_id, err = rr.get("out_id") or "", rr.get("err") or ""
     if exp["avail"]:
         if err:
+            if "this is the fallback system" in err:
+                # the stuck-workflow detector ended a healthy run (its timing assumption, see the C09 finding)
+                return ("fallback-abort-although-producible", "run ended by the fallback stuck-workflow detector (%s) although %s producible" % (err[:120], sorted(exp["avail"])))
             return ("error-but-producible", "run failed (%s) although %s producible" % (err[:150], sorted(exp["avail"])))
         if out_id not in exp["avail"]:
             return ("unproducible-output", "returned %r, producible %s" % (out_id, sorted(exp["avail"])))
